@@ -34,6 +34,26 @@ at every block of every history.
        ones reset) and a fail-back count + 1 must both be rejected.
 C12_SKIP_HIST=1 skips part H, C12_ONLY_HIST=1 runs part H alone (development).
 
+Part C - the CONFIRMATION layer around the classification (spec/ChainActions/ChainActionsConf*.tla, follow-ups b12c/b12d):
+ChainActions takes the CommitSet as given; here the three commitments are snapshots of a running commitment protocol
+(AAdd / BAdd / ARemove / BRemove / AFee / ASign / BRevoke / BSign; AFee = update_fee, which makes the trim threshold differ
+between the commitments), Spend(c) lets one of them spend the funding output and the
+chain watcher names the confirmed commitment and hands over the HTLC sets and resolutions, Close is the arbitrator's pass,
+and Restart / Expire / Claim(i) / TimeoutSpend(i) follow each resolver until its output is spent.  The property (second and
+third sentence of C12) is written over the chain's truth: WatcherNamesConfirmed, ResolverPerOutput, ResolverOwnsOutput,
+FailBackOnce, SettleOnce, NoFailBackWithOutput, ClosedOutOnce, QuietBefore.
+  (c1) exhaustive TLC (ChainActionsConfMC, 2 slots) + two non-vacuity controls (WatcherConfusesPending, RelaunchUsesAllSets);
+  (c2) ChainActionsConfGen: TLC -simulate (3 slots, three lengths of the link phase), one schedule per behaviour;
+  (c3) harness/contractcourt/c12_conf_test.go replays every schedule on a real lnwallet channel pair, a real chainWatcher
+       (handleCommitSpend), a real started ChannelArbitrator with its resolvers on a bolt log and an outpoint-faithful notifier
+       (same go test invocation as (c) and (h3));
+  (c4) ChainActionsConfTrace: the watcher's key / sets / resolutions, the HTLC a relaunched resolver carries and the HTLC a
+       resolver reports upstream are taken from the recorded line and judged by the property; everything else by Conform*;
+       a rejection is reported with key "C12:Conf:<invariant>:<event>";
+  (c5) negative controls: fail-back count + 1, the pending key renamed to the current one on a recorded Spend line, the HTLC
+       of a relaunched resolver exchanged on a recorded Restart line - all three must be rejected.
+C12_SKIP_CONF=1 skips part C, C12_ONLY_CONF=1 runs part C alone (development).
+
 Environment (development / controls): C12_OVERLAY='contractcourt/channel_arbitrator.go=/path/patched.go' (or VERIF_MUTATION),
 C12_F3C_REPAIRED=0 (model and validation with the order-dependent merge of the code before fix 1eb7c38; default 1),
 C12_F3AB_REPAIRED=1 (validate against the model with the candidate policy EarlyOK - use with mutations/C12/repairs/F3ab_*.diff),
@@ -55,12 +75,13 @@ SPEC = os.path.join(core.VERIF, "spec", "ChainActions")
 LEVEL = "model_checking"
 PKG = "./contractcourt/"
 HARNESS = ["contractcourt/c12_test.go"]
-HARNESS_ALL = HARNESS + ["contractcourt/c12_hist_test.go"]
+HARNESS_ALL = HARNESS + ["contractcourt/c12_hist_test.go", "contractcourt/c12_conf_test.go"]
 MC_WORKERS = int(os.environ.get("C12_MC_WORKERS", "4"))
 # the tree merges the two remote HTLC sets deterministically since fix 1eb7c38 (F3c); C12_F3C_REPAIRED=0 = the older code
 REPAIRED = os.environ.get("C12_F3C_REPAIRED", "1") not in ("", "0")
 REPAIRED_AB = os.environ.get("C12_F3AB_REPAIRED", "") not in ("", "0")
 SKIP_HIST = os.environ.get("C12_SKIP_HIST", "") not in ("", "0")
+SKIP_CONF = os.environ.get("C12_SKIP_CONF", "") not in ("", "0")
 
 WHAT = {
     "F3a": "offered HTLC that is dust on the confirmed commitment (or dangling dust) is NEVER failed back upstream when the "
@@ -297,9 +318,10 @@ def pad(s, nh):
 
 
 # ---------------------------------------------------------------------------------------------- execute + validate
-def execute(ck, scheds, name, reps, hist=None):
-    """One go test invocation for the cell executor and (hist: list of histories) the history executor.
-    Returns the cell trace (and the history trace)."""
+def execute(ck, scheds, name, reps, hist=None, conf=None):
+    """One go test invocation for the cell executor and (hist: list of histories) the history executor and (conf: list of
+    schedules of part C) the confirmation-layer executor.  Returns the cell trace (and the history trace); the trace of
+    part C is left in STATE["ctrace"]."""
     d = ck.scratch("sched_" + name)
     sp = os.path.join(d, "sched.ndjson")
     core.write_ndjson(sp, scheds)
@@ -310,11 +332,21 @@ def execute(ck, scheds, name, reps, hist=None):
         core.write_ndjson(hp, hist)
         env.update({"C12H_SCHED": hp, "C12H_REPS": 2 if ck.tier == "thorough" else 1})
         run = "^TestVerifC12(ChainActions|Hist)$" if scheds else "^TestVerifC12Hist$"
+    if conf is not None:
+        cp = os.path.join(d, "sched_conf.ndjson")
+        core.write_ndjson(cp, conf)
+        env["C12C_SCHED"] = cp
+        parts = (["ChainActions"] if scheds else []) + (["Hist"] if hist is not None else []) + ["Conf"]
+        run = "^TestVerifC12(%s)$" % "|".join(parts)
     res = ck.go_test(PKG, run, HARNESS_ALL, name="exec_" + name, timeout=2400, env=env, extra_overlay=overlay())
     trace = os.path.join(res["dir"], "trace.ndjson")
     htrace = os.path.join(res["dir"], "trace_hist.ndjson")
-    if res["rc"] != 0 or (scheds and not os.path.exists(trace)) or (hist is not None and not os.path.exists(htrace)):
+    ctrace = os.path.join(res["dir"], "trace_conf.ndjson")
+    if res["rc"] != 0 or (scheds and not os.path.exists(trace)) or (hist is not None and not os.path.exists(htrace)) \
+            or (conf is not None and not os.path.exists(ctrace)):
         raise Inconclusive("executor failed (%s):\n%s" % (name, res["out"][-3000:]))
+    if conf is not None:
+        STATE["ctrace"] = ctrace
     return (trace, htrace) if hist is not None else trace
 
 
@@ -734,6 +766,241 @@ def hist_finish(ck, hist, htrace, name="hist", replay=False):
     return recs, ok, rejected
 
 
+# ---------------------------------------------------------------------------------------------- part C: confirmation layer
+CONF_NH = 3
+CONF_EVENTS = ("AAdd", "BAdd", "ARemove", "BRemove", "AFee", "ASign", "BRevoke", "BSign", "Spend", "Close", "Restart", "Expire",
+               "Claim", "TimeoutSpend")
+
+
+def conf_is_reset(r):
+    return r.get("a") == "Reset"
+
+
+def conf_model_checking(ck):
+    what = ("confirmation layer, 2 slots: every universe x every state of the three commitments x every spender x every "
+            "order of 2 restarts / expiry / claims / timeouts")
+    if ck.tier == "thorough":
+        ck.model_check(SPEC, "ChainActionsConfMC", "ChainActionsConfMC.cfg", what + ", with fee updates", name="mcc_nh2",
+                       workers=MC_WORKERS, timeout=2400)
+        ck.model_check(SPEC, "ChainActionsConfMC", "ChainActionsConfMC.cfg", "confirmation layer, 3 offered HTLCs with an "
+                       "output everywhere, 1 restart, no fee updates (output indexes shift between the commitments)",
+                       constants={"NH": 3, "Dirs": "DirsOut", "Sizes": "SizesBig", "LowLs": "LowYes", "Fees": "FALSE",
+                                  "MaxRestarts": 1}, name="mcc_nh3", workers=MC_WORKERS, timeout=2400)
+    else:
+        ck.model_check(SPEC, "ChainActionsConfMC", "ChainActionsConfMC.cfg", what.replace("2 restarts", "1 restart")
+                       + ", no fee updates", constants={"Fees": "FALSE", "Sizes": "SizesAll", "MaxRestarts": 1},
+                       name="mcc_nh2", workers=MC_WORKERS, timeout=1800)
+        ck.model_check(SPEC, "ChainActionsConfMC", "ChainActionsConfMC.cfg", "confirmation layer, 2 offered HTLCs of the "
+                       "sizes that react to a fee update, with fee updates, 1 restart",
+                       constants={"Dirs": "DirsOut", "Sizes": "SizesEdge", "LowLs": "LowYes", "MaxRestarts": 1},
+                       name="mcc_nh2_fee", workers=MC_WORKERS, timeout=1800)
+    ctl = []
+    for q in ("WatcherConfusesPending", "RelaunchUsesAllSets"):
+        w = ck.model_check(SPEC, "ChainActionsConfMC", "ChainActionsConfCtl.cfg", "control: %s must break the property" % q,
+                           must_hold=False, constants={q: "TRUE"}, name="mcc_ctl_" + q, workers=2, timeout=900)
+        if not (w.violation or "").startswith("invariant"):
+            raise Inconclusive("confirmation-layer model with %s = TRUE violates nothing (%s): the property is vacuous"
+                               % (q, w.violation))
+        ctl.append("%s -> %s" % (q, w.violation.replace("invariant ", "")))
+    ck.cov["conf_model_controls"] = ctl
+
+
+def conf_generate(ck):
+    thorough = ck.tier == "thorough"
+    import glob
+    seen, scheds = set(), []
+    total = 0
+    for minlink in (3, 6, 9):
+        num = 2500 if thorough else 400
+        r = ck.tlc(SPEC, "ChainActionsConfGen", "ChainActionsConfGen.cfg", name="genc_%d" % minlink, mode="sim", workers=1,
+                   sim_num=num, sim_depth=40, constants={"NH": CONF_NH, "MinLink": minlink, "MaxLink": minlink + 6},
+                   timeout=1800)
+        files = glob.glob(os.path.join(r.dir, "b_*.ndjson"))
+        if r.error or r.violation or not files:
+            raise Inconclusive("confirmation-layer generation failed: %s\n%s" % (r.error or r.violation or "no behaviours",
+                                                                               r.out[-2000:]))
+        total += len(files)
+        for f in sorted(files, key=lambda f: int(re.sub(r"\D", "", os.path.basename(f)) or 0)):
+            for b in core.read_ndjson(f):
+                k = core.sha(json.dumps([b["attr"], b["ev"]], sort_keys=True))
+                if k in seen or not any(e["a"] == "Close" for e in b["ev"]):
+                    continue
+                seen.add(k)
+                b["id"] = len(scheds) + 1
+                scheds.append(b)
+            os.remove(f)
+    core.log("  [gen] confirmation layer: %d behaviours simulated, %d distinct schedules" % (total, len(scheds)))
+    ck.cov["model_runs"].append(dict(what="generate confirmation-layer schedules (simulate)", behaviours=total,
+                                     distinct=len(scheds)))
+    if len(scheds) < total // 4:
+        raise Inconclusive("too few distinct confirmation-layer schedules (%d)" % len(scheds))
+    return scheds
+
+
+def conf_text(one):
+    r0 = one[0]
+    hs = ["#%d %s/%s" % (i + 1, a["dir"], a["size"]) for i, a in enumerate(r0["attr"]) if a["dir"] != "none"]
+    evs = []
+    for r in one[1:]:
+        x = r["a"]
+        if x in ("AAdd", "BAdd", "ARemove"):
+            x += "(#%d)" % r["s"]
+        elif x == "BRemove":
+            x += "(#%d,%s)" % (r["s"], r["how"])
+        elif x == "Spend":
+            x += "(%s)->key=%s L%s R%s P%s res=%s/%s" % (r["c"], r["wkey"], r["wl"], r["wr"], r["wp"], r["wout"], r["win"])
+        elif x in ("Claim", "TimeoutSpend"):
+            x += "(%d)" % r["i"]
+        if r["a"] in ("Close", "Restart", "Expire", "Claim", "TimeoutSpend"):
+            x += "{fails=%s settles=%s closed=%s rk=%s rf=%s rst=%s}" % (r["fails"], r["settles"], r["closed"], r["rk"],
+                                                                         r["rf"], r["rst"])
+        evs.append(x)
+    return "[%s] %s" % ("; ".join(hs), " ".join(evs))
+
+
+def conf_store(ck, recs, line, tag):
+    a, b = core.slice_trace(recs, line or 1, conf_is_reset)
+    one = recs[a:b]
+    d = ck.scratch("fail_" + tag)
+    tp = os.path.join(d, "trace_conf.ndjson")
+    core.write_ndjson(tp, one)
+    sched = {"id": 1, "attr": one[0]["attr"], "lowL": one[0]["lowL"],
+             "ev": [{k: r[k] for k in ("a", "s", "how", "c", "i")} for r in one[1:]]}
+    sp = os.path.join(d, "sched_conf.ndjson")
+    core.write_ndjson(sp, [sched])
+    return one, {"trace_conf.ndjson": tp, "sched_conf.ndjson": sp}
+
+
+def conf_validate(ck, trace, name):
+    recs = core.read_ndjson(trace)
+    batches = core.split_batches(recs, conf_is_reset, max_bytes=6_000_000)
+    consts = {"NH": CONF_NH}
+
+    def one_batch(i, b):
+        res, cur = [], b
+        for attempt in range(4):
+            p = os.path.join(ck.out, "cbatch_%s_%d_%d.ndjson" % (name, i, attempt))
+            core.write_ndjson(p, cur)
+            v = ck.validate(SPEC, "ChainActionsConfTrace", "ChainActionsConfTrace.cfg", p, constants=consts,
+                            name="valc_%s_%d_%d" % (name, i, attempt), timeout=3000)
+            os.remove(p)
+            res.append((cur, v))
+            if v["ok"]:
+                break
+            a, e = core.slice_trace(cur, v["line"] or 1, conf_is_reset)
+            cur = cur[:a] + cur[e:]
+            if not cur:
+                break
+        return res
+
+    with concurrent.futures.ThreadPoolExecutor(max_workers=3) as ex:
+        results = [f.result() for f in [ex.submit(one_batch, i, b) for i, b in enumerate(batches)]]
+    ok, rejected = 0, []
+    for res in results:
+        for cur, v in res:
+            if not v["ok"]:
+                rejected.append((cur, v))
+        if res and res[-1][1]["ok"]:
+            ok += sum(1 for r in res[-1][0] if conf_is_reset(r))
+    return recs, ok, rejected
+
+
+def conf_report(ck, rejected, replay=False):
+    seen = set()
+    for cur, v in rejected:
+        badl = cur[min(max((v["line"] or 1) - 1, 0), len(cur) - 1)]
+        inv = (v["invariant"] or "rejected").replace("invariant ", "")
+        key = "C12:Conf:%s:%s" % (inv, "replay" if replay else badl.get("a"))
+        if key in seen:
+            continue
+        seen.add(key)
+        one, files = conf_store(ck, cur, v["line"], "conf_rejected")
+        a, _ = core.slice_trace(cur, v["line"] or 1, conf_is_reset)
+        upto = one[: max(2, (v["line"] or 1) - a + 1)]
+        ck.violation(key, "real chain watcher / ChannelArbitrator / resolvers break C12 around the confirmation of a commitment "
+                          "(spec/ChainActions/ChainActionsConf, %s at event %d of the run): %s" % (
+                              inv, (v["line"] or 1) - a - 1, conf_text(upto)[:3000]),
+                     files=files, text=v["cex"])
+
+
+def conf_negative_controls(ck, recs):
+    consts = {"NH": CONF_NH}
+    resets = [i for i, r in enumerate(recs) if conf_is_reset(r)]
+    failed = renamed = swapped = None
+    for a in resets:
+        _, b = core.slice_trace(recs, a + 1, conf_is_reset)
+        one = recs[a:b]
+        if failed is None and one[-1]["a"] in ("Close", "Restart", "Expire", "Claim", "TimeoutSpend"):
+            failed = copy.deepcopy(one)
+            failed[-1]["fails"][0] += 1
+        if renamed is None:
+            for j, r in enumerate(one):
+                if r["a"] == "Spend" and r["c"] == "P" and r["wkey"] == "P" and r["wr"] != r["wp"]:
+                    renamed = copy.deepcopy(one[: j + 1])
+                    renamed[j]["wkey"] = "R"
+                    break
+        if swapped is None:
+            for j, r in enumerate(one):
+                live = [i for i, s in enumerate(r.get("rst", [])) if s in ("watch", "timeout")]
+                slots = [i + 1 for i, x in enumerate(one[0]["attr"]) if x["dir"] != "none"]
+                if r["a"] == "Restart" and live and len(slots) > 1:
+                    swapped = copy.deepcopy(one[: j + 1])
+                    i = live[0]
+                    swapped[j]["rf"][i] = [s for s in slots if s != r["rf"][i]][0]
+                    break
+        if failed and renamed and swapped:
+            break
+    if failed is None or renamed is None or swapped is None:
+        raise Inconclusive("confirmation layer: no recorded run for the negative controls (close %s, pending spend %s, "
+                           "restart %s)" % (failed is not None, renamed is not None, swapped is not None))
+    for tag, bad, what in (("failplus", failed, "fails[0]+1 on the last line"),
+                           ("key", renamed, "ConfCommitKey of a recorded pending-commitment spend renamed to the current one"),
+                           ("identity", swapped, "the HTLC carried by a relaunched resolver exchanged for another slot")):
+        p = os.path.join(ck.out, "ccontrol_%s.ndjson" % tag)
+        core.write_ndjson(p, bad)
+        v = ck.validate(SPEC, "ChainActionsConfTrace", "ChainActionsConfTrace.cfg", p, constants=consts, name="ccontrol_" + tag)
+        if v["ok"]:
+            raise Inconclusive("confirmation-layer negative control accepted (%s): trace validation is not binding" % what)
+        ck.cov.setdefault("negative_controls", []).append(dict(part="confirmation layer", mutation=what,
+                                                               rejected_by=v["invariant"], at_line=v["line"]))
+
+
+def conf_finish(ck, scheds, ctrace, name="conf", replay=False):
+    recs, ok, rejected = conf_validate(ck, ctrace, name)
+    conf_report(ck, rejected, replay)
+    evs = [r for r in recs if not conf_is_reset(r)]
+    ck.cov["conf_schedules"] = len(scheds)
+    ck.cov["conf_events_recorded"] = len(evs)
+    ck.cov["conf_events_by_kind"] = dict(collections.Counter(r["a"] for r in evs))
+    ck.cov["conf_spends_by_commitment"] = dict(collections.Counter(r["c"] for r in evs if r["a"] == "Spend"))
+    ck.cov["conf_pending_spends_with_differing_sets"] = sum(1 for r in evs if r["a"] == "Spend" and r["c"] == "P"
+                                                            and r["wr"] != r["wp"])
+    ck.cov["conf_restarts_with_live_resolvers"] = sum(1 for r in evs if r["a"] == "Restart"
+                                                      and any(s in ("watch", "timeout") for s in r["rst"]))
+    ck.cov["conf_steps_refused_or_stalled"] = sum(1 for r in evs if r["err"] or r["stall"])
+    ck.cov["conf_traces_validated"] = ok
+    if not rejected and not replay:
+        conf_negative_controls(ck, recs)
+    if recs:
+        e0 = core.slice_trace(recs, 1, conf_is_reset)[1]
+        ck.cov["samples"].append({"confirmation_run": conf_text(recs[:e0])[:1500]})
+    return recs, ok, rejected
+
+
+def conf_cov_text(ck):
+    ck.cov["rule"] += ("; confirmation layer: TLC -simulate of ChainActionsConf (3 slots, link phases of three lengths), every "
+                       "distinct schedule that reaches the Close replayed on a real channel pair / chain watcher / arbitrator "
+                       "with resolvers (distinct = distinct (universe, event sequence) hashes)")
+    ck.cov["trusted_base"] += ["confirmation layer: lnwallet.CreateTestChannels (alice's dust limit 200 sat, bob's 1300 sat, "
+                               "tweakless non-anchor), outpoint-faithful chain notifier stand-in (spends also reach later "
+                               "registrations, a new epoch subscriber gets the current height, outputs of our second-level "
+                               "transactions are swept at once), sweeper that never reports, quiescence judged from chain facts"]
+    ck.assumptions += ["confirmation layer: ours is the commitment with the lower dust limit; every HTLC expires at the same "
+                       "far height; the close event is handled in StateDefault (the named classes F3a/F3b need an earlier "
+                       "broadcast and are judged by part (a)-(f)); no breach / cooperative close; the commit output's "
+                       "resolver makes no progress; each protocol message is delivered at once"]
+
+
 def dev_known(ck):
     globs = [g for g in os.environ.get("C12_KNOWN_GLOBS", "").split(",") if g]
     for g in globs:
@@ -767,6 +1034,22 @@ def run(ck):
         ck.cov["rule"] = "part H only (development)"
         return
 
+    if os.environ.get("C12_ONLY_CONF"):
+        # development: part C alone
+        ck.notes.append("C12_ONLY_CONF: only the confirmation-layer part was run (development)")
+        if not os.environ.get("C12_SKIP_MC"):
+            conf_model_checking(ck)
+        conf = conf_generate(ck)
+        execute(ck, [], "conf", reps, conf=conf)
+        _, cok, _ = conf_finish(ck, conf, STATE["ctrace"])
+        ck.cov["evaluations"] = len(conf)
+        ck.cov["distinct_nontrivial"] = len(conf)
+        ck.cov["traces_validated_against_impl"] = cok
+        ck.cov["states"] = max(1, ck.cov["states"])
+        ck.cov["transitions"] = max(1, ck.cov["transitions"])
+        ck.cov["rule"] = "part C only (development)"
+        return
+
     if os.environ.get("C12_SKIP_MC"):
         predicted = None
         ck.notes.append("C12_SKIP_MC: model checking skipped (control run)")
@@ -774,6 +1057,8 @@ def run(ck):
         predicted = model_checking(ck)
         if not SKIP_HIST:
             hist_model_checking(ck)
+        if not SKIP_CONF:
+            conf_model_checking(ck)
         ck.cov["exhaustive"] = True
 
     # ---- schedules
@@ -805,11 +1090,14 @@ def run(ck):
     # ---- part H: histories (own random stream: the cell schedules above do not depend on it)
     hist = None if SKIP_HIST else hist_generate(ck, random.Random(ck.seed * 7919 + 12))
 
+    # ---- part C: the confirmation layer (TLC's own seed; independent of the streams above)
+    conf = None if SKIP_CONF else conf_generate(ck)
+
     # ---- execute on the real arbitrator, validate
     if hist is None:
-        trace, htrace = execute(ck, scheds, "all", reps), None
+        trace, htrace = execute(ck, scheds, "all", reps, conf=conf), None
     else:
-        trace, htrace = execute(ck, scheds, "all", reps, hist=hist)
+        trace, htrace = execute(ck, scheds, "all", reps, hist=hist, conf=conf)
     quirks, rejected = {}, []
     recs, ntraces = validate_batches(ck, trace, nh, "all", quirks, rejected)
     ck.cov["evaluations"] = len(scheds) * reps
@@ -867,6 +1155,13 @@ def run(ck):
         ck.cov["distinct_nontrivial"] += len(hist)
         ck.cov["traces_validated_against_impl"] += hok
 
+    # ---- part C: the recorded confirmation-layer runs, judged by ChainActionsConfTrace
+    if conf is not None:
+        _, cok, _ = conf_finish(ck, conf, STATE["ctrace"])
+        ck.cov["evaluations"] += len(conf)
+        ck.cov["distinct_nontrivial"] += len(conf)
+        ck.cov["traces_validated_against_impl"] += cok
+
     ck.cov["rule"] = ("one HTLC: every (cell, path) TLC enumerates (thorough) or a seeded sample covering every (direction, "
                       "presence pattern, path) twice (quick); two HTLCs: TLC -simulate from the seed; 3-5 HTLCs with arbitrary "
                       "deltas / more blocks / refused force-close requests: seeded random driver; every schedule "
@@ -888,6 +1183,8 @@ def run(ck):
                               "PutFinalHtlcOutcome / first InsertUnresolvedContracts / CommitState taps",
                               "histories: test clock (1 tick = 1 minute), goroutine-safe witness beacon / invoice registry "
                               "stand-ins, notifyContractUpdate / UpdateContractSignals / ProcessBlock called directly"]
+    if conf is not None:
+        conf_cov_text(ck)
     ck.assumptions += ["resolvers make no progress on their own (no spend / epoch notifications are delivered): what is judged "
                        "is the arbitrator's own disposition at close time, not the resolvers' later behaviour (C13)",
                        "RefundTimeout >= broadcast delta (the uint32 underflow corner is outside the domain)",
@@ -901,6 +1198,16 @@ def replay(ck, reps):
     d = ck.replay
     sp = os.path.join(d, "sched.ndjson")
     hp = os.path.join(d, "sched_hist.ndjson")
+    cp = os.path.join(d, "sched_conf.ndjson")
+    if os.path.exists(cp):
+        conf = core.read_ndjson(cp)
+        execute(ck, [], "replay", reps, conf=conf)
+        recs, ok, _ = conf_finish(ck, conf, STATE["ctrace"], name="replay", replay=True)
+        ck.cov["evaluations"] = len(conf)
+        ck.cov["traces_validated_against_impl"] = ok
+        ck.cov["states"] = ck.cov["transitions"] = max(1, len(recs))
+        ck.cov["rule"] = "replay of a stored confirmation-layer schedule"
+        return
     if os.path.exists(hp):
         hist = core.read_ndjson(hp)
         _, htrace = execute(ck, [], "replay", reps, hist=hist)
